@@ -154,7 +154,7 @@ func (m *model) Init(dir string) error {
 	}
 	// stock git must be happy with the starting point, otherwise the check proves nothing
 	for _, d := range []string{m.host(), m.remote()} {
-		if r, _ := run(d, 60*time.Second, "git", "fsck", "--strict", "--no-dangling"); r.Code != 0 {
+		if r, _ := runGit(d, 300*time.Second, nil, "fsck", "--strict", "--no-dangling"); r.Code != 0 {
 			return fmt.Errorf("initial repository %s fails fsck: %s", d, r.Err)
 		}
 	}
@@ -241,7 +241,7 @@ func (m *model) judge(a string, prev, next *st) (viol []xstate.Violation, tags [
 	changedHost := prev.Host.ObjState != next.Host.ObjState || strings.Join(prev.Host.BugRefs, "\n") != strings.Join(next.Host.BugRefs, "\n")
 	changedRemote := prev.Remote.ObjState != next.Remote.ObjState || strings.Join(prev.Remote.BugRefs, "\n") != strings.Join(next.Remote.BugRefs, "\n")
 	fsck := func(where, dir string) {
-		r, e := run(dir, 120*time.Second, "git", "fsck", "--strict", "--no-dangling")
+		r, e := runGit(dir, 300*time.Second, nil, "fsck", "--strict", "--no-dangling")
 		if e != nil {
 			err = e
 			return
@@ -261,6 +261,9 @@ func (m *model) judge(a string, prev, next *st) (viol []xstate.Violation, tags [
 		fsck("remote", m.remote())
 		tags = append(tags, "fsck-remote")
 		if v := m.mirrorRoundTrip(a, next.Remote.BugRefs); v != nil {
+			if v.Oracle == "harness" {
+				return nil, nil, fmt.Errorf("%s", v.Detail)
+			}
 			viol = append(viol, *v)
 		}
 		tags = append(tags, "mirror-gc")
@@ -279,24 +282,22 @@ func fsckClasses(out string) []string {
 		if l == "" {
 			continue
 		}
-		// "error in tree 1234: treeNotSorted: not properly sorted", "warning in ...", "missing blob ..", "broken link from"
-		f := strings.Fields(l)
-		cls := f[0]
-		if i := strings.Index(l, ": "); i > 0 {
-			rest := l[i+2:]
-			if j := strings.Index(rest, ":"); j > 0 {
-				cls = strings.Fields(l)[0] + "/" + rest[:j]
-			}
-		} else if len(f) > 1 {
-			cls = f[0] + "-" + f[1]
+		// "error in tree 1234: treeNotSorted: not properly sorted" -> "error in tree #: treeNotSorted: not properly sorted"
+		l = hexish.ReplaceAllString(l, "#")
+		l = scratchPath.ReplaceAllString(l, "")
+		if len(l) > 90 {
+			l = l[:90]
 		}
-		seen[cls] = true
+		seen[l] = true
 	}
 	var out2 []string
 	for c := range seen {
 		out2 = append(out2, c)
 	}
 	sort.Strings(out2)
+	if len(out2) > 4 {
+		out2 = out2[:4]
+	}
 	return out2
 }
 
@@ -313,17 +314,26 @@ func (m *model) mirrorRoundTrip(a string, want []string) *xstate.Violation {
 	fail := func(step string, r runResult) *xstate.Violation {
 		return &xstate.Violation{Oracle: "c15.stockgit", Sig: a + ":" + step + ":" + strings.Join(fsckClasses(r.Err), ","), Detail: fmt.Sprintf("after %s stock git cannot %s the remote's data: exit %d: %s", a, step, r.Code, clip(r.Err))}
 	}
-	if r, err := run(m.dir, 120*time.Second, "git", "-c", "transfer.fsckObjects=true", "clone", "-q", "--mirror", m.remote(), tmp); err != nil || r.Code != 0 {
+	rmTmp := func() { os.RemoveAll(tmp) }
+	rmTmp2 := func() {
+		os.RemoveAll(tmp2)
+		runGit(m.dir, 60*time.Second, nil, "init", "-q", "--bare", tmp2)
+		runGit(tmp2, 60*time.Second, nil, "config", "receive.fsckObjects", "true")
+	}
+	if r, err := runGit(m.dir, 300*time.Second, rmTmp, "-c", "transfer.fsckObjects=true", "clone", "-q", "--mirror", m.remote(), tmp); err != nil {
+		return &xstate.Violation{Oracle: "harness", Sig: "machine", Detail: err.Error()}
+	} else if r.Code != 0 {
 		return fail("clone", r)
 	}
-	if r, err := run(tmp, 120*time.Second, "git", "gc", "-q", "--prune=now"); err != nil || r.Code != 0 {
+	if r, err := runGit(tmp, 300*time.Second, nil, "gc", "-q", "--prune=now"); err != nil {
+		return &xstate.Violation{Oracle: "harness", Sig: "machine", Detail: err.Error()}
+	} else if r.Code != 0 {
 		return fail("gc", r)
 	}
-	if r, err := run(m.dir, 60*time.Second, "git", "init", "-q", "--bare", tmp2); err != nil || r.Code != 0 {
-		return fail("init", r)
-	}
-	run(tmp2, 10*time.Second, "git", "config", "receive.fsckObjects", "true")
-	if r, err := run(tmp, 120*time.Second, "git", "push", "-q", "--mirror", tmp2); err != nil || r.Code != 0 {
+	rmTmp2()
+	if r, err := runGit(tmp, 300*time.Second, rmTmp2, "push", "-q", "--mirror", tmp2); err != nil {
+		return &xstate.Violation{Oracle: "harness", Sig: "machine", Detail: err.Error()}
+	} else if r.Code != 0 {
 		return fail("push", r)
 	}
 	for _, d := range []string{tmp, tmp2} {
